@@ -71,12 +71,17 @@ class Check:
             if counts.get(r, 0) < mn:
                 raise AnalysisBroken('rule %s matched %d instances, fewer than the %d confirmed by hand'
                                      % (r, counts.get(r, 0), mn))
-        seenkeys = set()
+        # several sites may share one semantic key: the instance holds only if all of them do
+        first = {}
         for o in self.obligations:
             k = (o['rule'], o['key'])
-            if k in seenkeys:
+            if k in first:
                 o['dup'] = True
-            seenkeys.add(k)
+                if not o['ok'] and first[k]['ok']:
+                    first[k]['ok'] = False
+                    first[k]['loc'], first[k]['detail'], first[k]['witness'] = o['loc'], o['detail'], o['witness']
+            else:
+                first[k] = o
         viol, knownhits = [], []
         for o in self.obligations:
             if o['ok'] or o.get('dup'):
